@@ -90,14 +90,19 @@ func TestC08Parallel(t *testing.T) {
 		sr := &snapRun{concRun: startConcRun(p, capacity), Free: true}
 		defer sr.Close()
 		sr.S.FreeSeed = rapid.Uint64().Draw(t, "yield-seed")
-		sr.S.Add("snapshot", func() {
+		sr.addSnapshot(func() {
 			for i := 0; i < delay; i++ {
 				runtime.Gosched()
 			}
-			sr.SBegin = sr.S.Tick()
-			sr.Err = sr.C.Snapshot(&sr.Buf)
-			sr.SEnd = sr.S.Tick()
 		})
+		if rapid.IntRange(0, 2).Draw(t, "second-snapshot") == 0 {
+			delay2 := rapid.IntRange(0, 600).Draw(t, "snapshot2-delay")
+			sr.addSnapshot(func() {
+				for i := 0; i < delay2; i++ {
+					runtime.Gosched()
+				}
+			})
+		}
 		sr.ok = sr.S.RunFree(30 * time.Second)
 		if !sr.ok {
 			t.Fatalf("C08 violated (snapshot beside free-parallel writers): %s%s\nprogram:\n%s", sr.S.Hang, sr.S.Panic, p)
